@@ -828,6 +828,7 @@ func TestVerifC09Consts(t *testing.T) { vfC09Consts(t) }
 func TestVerifC09(t *testing.T) {
 	r := vfNewRand(vfSeed())
 	n := vfN(60)
+	vfC09Consts(t)
 	// crafted trigram counts around the b-tree bucket sizes (real btreeBucketSize)
 	half := btreeBucketSize / 2
 	ks := []int{1, half, btreeBucketSize + 1}
